@@ -9,7 +9,8 @@ ROOT = os.path.dirname(os.path.dirname(os.path.abspath(__file__)))
 sys.path.insert(0, ROOT)
 
 CLASSES = [("initial_config.yaml", "initial_config"), ("training_config.yaml", "training_config"), ("best.ckpt", "ckpt_best"),
-           ("last.ckpt", "ckpt_last"), ("metrics.csv", "metrics_csv"), ("hparams.yaml", "hparams_yaml")]
+           ("last.ckpt", "ckpt_last"), ("metrics.csv", "metrics_csv"), ("hparams.yaml", "hparams_yaml"),
+           ("pred_val.slp", "pred_val"), ("val_pred_metrics.npz", "val_metrics"), ("pred_test.slp", "pred_test"), ("test_pred_metrics.npz", "test_metrics")]
 
 
 def classify(path, out_dir, chunk_dir):
@@ -120,6 +121,8 @@ def main():
             sio.save_slp(lab, one, embed="user")
             plain["data_config"]["train_labels_path"] = one
             plain["data_config"]["val_labels_path"] = one
+        if job.get("test"):
+            plain["data_config"]["test_file_path"] = plain["data_config"]["val_labels_path"]
         if job["structured"]:
             from sleap_nn.config.training_job_config import TrainingJobConfig
             from sleap_nn.config.data_config import DataConfig
@@ -129,7 +132,7 @@ def main():
 
             dc = get_data_config(train_labels_path=plain["data_config"]["train_labels_path"], val_labels_path=plain["data_config"]["val_labels_path"],
                                  data_pipeline_fw=job["fw"], np_chunks_path=chunk_dir, delete_chunks_after_training=True, scale=1.0,
-                                 crop_hw=(160, 160), use_augmentations_train=False)
+                                 crop_hw=(160, 160), use_augmentations_train=False, test_file_path=plain["data_config"]["test_file_path"])
             mc = get_model_config(init_weight="default", backbone_config=plain["model_config"]["backbone_config"]["unet"] and {"unet": plain["model_config"]["backbone_config"]["unet"]},
                                   head_configs=(job["model"] if job.get("heads") == "default" else {job["model"]: plain["model_config"]["head_configs"][job["model"]]}))
             derived = job.get("feed") == "derived"
@@ -159,13 +162,22 @@ def main():
         from loguru import logger
         logger.remove()
         active[0] = True
-        obs["stage"] = "init"
-        trainer = ModelTrainer(cfg)
-        obs["stage"] = "train"
-        trainer.train()
-        obs["stage"] = "done"
-        active[0] = False
-        used = OmegaConf.to_container(trainer.config, resolve=True)
+        if job.get("lifecycle"):
+            # the whole lifecycle behind train() / the CLI: train, then predict + evaluate on the validation (and test) labels
+            from sleap_nn.train import run_training
+            obs["stage"] = "lifecycle"
+            run_training(cfg)
+            obs["stage"] = "done"
+            active[0] = False
+            used = None
+        else:
+            obs["stage"] = "init"
+            trainer = ModelTrainer(cfg)
+            obs["stage"] = "train"
+            trainer.train()
+            obs["stage"] = "done"
+            active[0] = False
+            used = OmegaConf.to_container(trainer.config, resolve=True)
     except BaseException as e:  # noqa
         active[0] = False
         import traceback
@@ -208,6 +220,34 @@ def main():
             return out
         return [] if a == b else [pre.rstrip(".")]
 
+    if job.get("lifecycle"):
+        obs["content"] = ""
+        try:
+            if obs["stage"] == "done" and job["ckpt"]:
+                import numpy as np
+                import sleap_io as sio
+                gt = sio.load_slp(plain["data_config"]["val_labels_path"])
+                want = {(gt.videos.index(lf.video), int(lf.frame_idx)) for lf in gt}
+                for split in (["val"] + (["test"] if job.get("test") else [])):
+                    pl = sio.load_slp(os.path.join(out_dir, "pred_%s.slp" % split))
+                    got = [(pl.videos.index(lf.video), int(lf.frame_idx)) for lf in pl]
+                    if len(set(got)) != len(got):
+                        obs["content"] = "frame_predicted_twice"
+                    elif not set(got) <= want:
+                        obs["content"] = "predicted_frame_not_in_labels"
+                    elif [n.name for n in pl.skeletons[0].nodes] != [n.name for n in gt.skeletons[0].nodes]:
+                        obs["content"] = "skeleton_differs"
+                    z = np.load(os.path.join(out_dir, "%s_pred_metrics.npz" % split), allow_pickle=True)
+                    if not {"voc_metrics", "mOKS", "distance_metrics", "pck_metrics", "visibility_metrics"} <= set(z.keys()):
+                        obs["content"] = obs["content"] or "metrics_sections_missing"
+                    else:
+                        voc = z["voc_metrics"].item()
+                        for k in ("oks_voc.mAP", "oks_voc.mAR"):
+                            v = float(voc[k])
+                            if not (0.0 <= v <= 1.0):
+                                obs["content"] = obs["content"] or "metric_out_of_range"
+        except Exception as e:  # noqa
+            obs["content"] = "unreadable_%s" % type(e).__name__
     ini, fin = load("initial_config.yaml"), load("training_config.yaml")
     obs["initial_diff"] = (["<missing>"] if ini is None else diff_paths(blank(ini), blank(supplied)))[:12]
     obs["final_diff"] = (["<missing>"] if fin is None else (["<no live config>"] if used is None else diff_paths(blank(fin), blank(used))))[:12]
